@@ -76,6 +76,19 @@ func (m *VMap) StateAt(v uint64) map[string][]byte {
 // History returns the committed versions of a key (ascending).
 func (m *VMap) History(key []byte) []Ver { return m.hist[string(key)] }
 
+// TouchedAt returns the keys written or deleted by the commit of version v, sorted.
+func (m *VMap) TouchedAt(v uint64) []string {
+	var ks []string
+	for k, h := range m.hist {
+		i := sort.Search(len(h), func(i int) bool { return h[i].Version >= v })
+		if i < len(h) && h[i].Version == v {
+			ks = append(ks, k)
+		}
+	}
+	sort.Strings(ks)
+	return ks
+}
+
 // Keys returns every key that ever had a committed version, sorted.
 func (m *VMap) Keys() []string {
 	ks := make([]string, 0, len(m.hist))
